@@ -71,6 +71,7 @@ AdvCat3 == { <<>>, <<N3>>, <<{"n1", "n2"}>>, <<{"n3"}>>, <<{"n1"}, {"n2", "n3"}>
 AdvCat4 == { <<>>, <<N4>>, <<{"n1", "n2", "n3"}>>, <<{"n4"}>>, <<{"n1"}, {"n2", "n3", "n4"}>>,
              <<{"n1", "n2"}, {"n2", "n3"}>>, <<{"n1", "n4"}, {}>>, <<{"n2", "n3"}, {"n3", "n4"}>> }
 AdvTwo3 == { <<N3>>, <<{"n1", "n2"}>> }
+AdvOne3 == { <<{"n1", "n2"}, {"n3"}>> }
 AdvTwo4 == { <<N4>>, <<{"n1", "n2"}, {"n4"}>> }
 AdvFull(U) == {<<A>> : A \in SUBSET U} \cup {<<A, B>> : A \in SUBSET U, B \in SUBSET U}
 AdvBgp == { <<>>, <<{"n1"}>>, <<{"n2"}>>, <<{"n2"}, {"n1", "n2"}>>, <<{}, {"n1"}>> }
@@ -255,15 +256,17 @@ LemmaNext ==
   /\ stage = 0 /\ stage' = 2
   /\ x' \in Ranks(NodeNames)
 
+(* one step changes one or two nodes *)
+Near(S) == {Q \in SUBSET NodeNames : Cardinality((S \ Q) \cup (Q \ S)) \in {1, 2}}
+
 SeqNext ==
   \/ /\ stage = 0 /\ stage' = 1
      /\ x' \in {[c |-> c, S1 |-> S1] : c \in SeqCombos, S1 \in SUBSET NodeNames}
   \/ /\ stage = 1 /\ stage' = 2
-     /\ x' \in {[meta |-> x.c,
-                  views |-> << SeqView(x.S1, x.c.d, x.c.etp, x.c.ml, x.c.ign), SeqView(S2, x.c.d, x.c.etp, x.c.ml, x.c.ign),
-                               SeqView(S3, x.c.d, x.c.etp, x.c.ml, x.c.ign) >>] :
-                   S2 \in (SUBSET NodeNames) \ {x.S1}, S3 \in SUBSET NodeNames}
-     /\ x'.views[2] # x'.views[3]
+     /\ x' \in UNION {{[meta |-> x.c,
+                          views |-> << SeqView(x.S1, x.c.d, x.c.etp, x.c.ml, x.c.ign),
+                                       SeqView(S2, x.c.d, x.c.etp, x.c.ml, x.c.ign),
+                                       SeqView(S3, x.c.d, x.c.etp, x.c.ml, x.c.ign) >>] : S3 \in Near(S2)} : S2 \in Near(x.S1)}
      /\ PrintT(ToJson(Rec("seq", x')))
 
 CfgNext ==
@@ -298,11 +301,13 @@ InvBGP ==
      /\ OneNodePerAddr(x.eps)
      /\ \A n \in NodeNames : CodeBGPAnnounces(x, n) <=> BGPEligible(x, n)
 
+PairRanks == {r \in Ranks(NodeNames) : r["n1"] < r["n2"] /\ r["n3"] < r["n4"]}
+
 (* sequences and configurations: the decision procedures have no memory, so *)
 (* every view of a sequence is judged like a single view                    *)
 InvSeq ==
   (Mode = "seq" /\ stage = 2) =>
-     \A j \in DOMAIN x.views : \A r \in Ranks(NodeNames) :
+     \A j \in DOMAIN x.views : \A r \in (IF Cardinality(NodeNames) = 4 THEN PairRanks ELSE Ranks(NodeNames)) :
         /\ {n \in NodeNames : CodeL2Announces(x.views[j], n, r)} = Winner(x.views[j], r)
         /\ \A n \in NodeNames : CodeBGPAnnounces(x.views[j], n) <=> BGPEligible(x.views[j], n)
 
@@ -325,7 +330,6 @@ InvLemma ==
 
 (* C04 / C12 at design level on the pair scenarios (a quarter of the orders; *)
 (* InvLemma covers every order)                                             *)
-PairRanks == {r \in Ranks(NodeNames) : r["n1"] < r["n2"] /\ r["n3"] < r["n4"]}
 InvPairModel ==
   (Mode = "pair" /\ stage = 2) =>
      \A r \in PairRanks :
